@@ -372,6 +372,16 @@ def layout2d_wrappers(shape, roe_corner, parallel_overscan, serial_prescan, seri
     for n in names:
         if _t(getattr(back, n)) != (None if orig[n] is None else tuple(orig[n])):
             return "new_rotated_from applied to the rotated layout gives %s = %r, not the original %r" % (n, _t(getattr(back, n)), orig[n])
+    # three steps: rotate for the corner, extract a window, bring the window's content back to its original orientation -- the extracted
+    # layout is still the layout of a frame read out from that corner, so this is the same flip applied to the window alone
+    extr = lay.layout_extracted_from(extraction_region=tuple(window))
+    wa = ra[window[0]:window[1], window[2]:window[3]]
+    if wa.size:
+        got = extr.original_orientation_from(array=wa.copy())
+        want = lu.rotate_array_via_roe_corner_from(array=wa.copy(), roe_corner=roe_corner)
+        if not np.array_equal(np.asarray(got), want):
+            return ("layout_extracted_from(%r) of the layout rotated for corner %r, then original_orientation_from(window content): %r, the "
+                    "rotation for that corner gives %r" % (window, roe_corner, np.asarray(got).tolist(), want.tolist()))
     # extraction on an un-rotated layout
     lay0 = aa.Layout2D(shape_2d=shape, **orig)
     ext = lay0.layout_extracted_from(extraction_region=tuple(window))
